@@ -95,7 +95,7 @@ def parse_environment(L, rep):
             med['eps'], med['sigma'] = num(m.group(1)), num(m.group(2))
             while True:
                 p = L.peek() or ''
-                m = re.match(r'^ NUMBER OF RADIAL WIRES IN GROUND SCREEN: +(\d+)$', p)
+                m = re.match(r'^ NUMBER OF RADIAL WIRES IN GROUND SCREEN: +(-?\d+)$', p)
                 if m:
                     med['nradials'] = int(m.group(1))
                     L.next()
